@@ -55,6 +55,19 @@ type rpCase struct {
 	DelF     string
 }
 
+// pool label values: "" = no label, "<empty>" = the label is present with the empty value
+func poolLabel(p string) (string, bool) {
+	if p == "<empty>" {
+		return "", true
+	}
+	return p, p != ""
+}
+
+func gPool(p string) string {
+	v, ok := poolLabel(p)
+	return gOptStr(v, ok)
+}
+
 func condTime(cd rpCond) time.Time {
 	if cd.Zero {
 		return time.Time{}
@@ -124,7 +137,10 @@ func doRepair(c *kit.Ctx, x rpCase) {
 	add("get", "NodePool", x.PoolGetF)
 	add("patch", "NodeClaim", x.PatchF)
 	add("delete", "NodeClaim", x.DelF)
+	d := decorFor(c)
+	rules = d.rules(rules)
 	w := newWorld(rules...)
+	d.pods(w, "self")
 
 	// clock
 	now := baseTime()
@@ -140,8 +156,8 @@ func doRepair(c *kit.Ctx, x rpCase) {
 
 	label := func(pool string) map[string]string {
 		l := map[string]string{v1.NodeClassLabelKey(testGK.GroupKind()): "default"}
-		if pool != "" {
-			l[v1.NodePoolLabelKey] = pool
+		if v, ok := poolLabel(pool); ok {
+			l[v1.NodePoolLabelKey] = v
 		}
 		return l
 	}
@@ -170,14 +186,18 @@ func doRepair(c *kit.Ctx, x rpCase) {
 	for _, cl := range x.Claims {
 		nc := &v1.NodeClaim{ObjectMeta: metav1.ObjectMeta{Name: cl.Name, Labels: map[string]string{}, Annotations: map[string]string{}},
 			Spec: v1.NodeClaimSpec{NodeClassRef: classRef(true)}, Status: v1.NodeClaimStatus{ProviderID: cl.PID, NodeName: "self"}}
-		if cl.Pool != "" {
-			nc.Labels[v1.NodePoolLabelKey] = cl.Pool
+		if v, ok := poolLabel(cl.Pool); ok {
+			nc.Labels[v1.NodePoolLabelKey] = v
 		}
+		d.claim(nc)
 		switch cl.Annot {
 		case "bad":
 			nc.Annotations[v1.NodeClaimTerminationTimestampAnnotationKey] = "not-a-time"
 		case "past", "now", "future":
 			nc.Annotations[v1.NodeClaimTerminationTimestampAnnotationKey] = annotTime[cl.Annot].In(now.Location()).Format(time.RFC3339)
+		case "past-tz", "future-tz":
+			// written by someone in another time zone: same instant, other spelling
+			nc.Annotations[v1.NodeClaimTerminationTimestampAnnotationKey] = annotTime[cl.Annot[:len(cl.Annot)-3]].In(time.FixedZone("x", 2*3600)).Format(time.RFC3339)
 		}
 		if cl.Deleting {
 			nc.Finalizers = []string{v1.TerminationFinalizer}
@@ -231,11 +251,13 @@ func doRepair(c *kit.Ctx, x rpCase) {
 			a = "AnnBad"
 		case "past", "now", "future":
 			a = "(AnnTime " + gTime(annotTime[cl.Annot]) + ")"
+		case "past-tz", "future-tz":
+			a = "(AnnTime " + gTime(annotTime[cl.Annot[:len(cl.Annot)-3]]) + ")"
 		}
-		return fmt.Sprintf("mkRClaim %s %s %s %s", kit.GStr(cl.PID), gOptStr(cl.Pool, cl.Pool != ""), kit.GBool(cl.Deleting), a)
+		return fmt.Sprintf("mkRClaim %s %s %s %s", kit.GStr(cl.PID), gPool(cl.Pool), kit.GBool(cl.Deleting), a)
 	})
 	gnodes := kit.GListOf(apiNodes, func(n rpNode) string {
-		return fmt.Sprintf("mkRNode %s %s %s", gOptStr(n.Pool, n.Pool != ""), kit.GBool(n.Deleting), gConds(n.Conds))
+		return fmt.Sprintf("mkRNode %s %s %s", gPool(n.Pool), kit.GBool(n.Deleting), gConds(n.Conds))
 	})
 	gpol := kit.GListOf(x.Policies, func(p rpPolicy) string {
 		return fmt.Sprintf("mkPolicy %s %s %s", kit.GStr(p.Type), kit.GStr(p.Status), kit.GZ(int64(p.Tol)))
@@ -307,6 +329,14 @@ func doRepair(c *kit.Ctx, x rpCase) {
 				outcome = "repair-proceeds"
 			}
 			c.Count(fmt.Sprintf("repair:terminating-nodes-listed(unhealthy=%v,healthy=%v) %s", termU > 0, termH > 0, outcome))
+		}
+	}
+	for _, cl := range x.Claims {
+		if cl.PID == x.PID && x.PID != "" {
+			c.Count("repair:annotation=" + cl.Annot)
+			if cl.Pool == "<empty>" {
+				c.Count("repair:claim-pool-label-empty-value")
+			}
 		}
 	}
 	key := ""
@@ -442,7 +472,7 @@ func runRepair(c *kit.Ctx) {
 				}
 				// the same world with some of the counted nodes Terminating (rolling failure: earlier
 				// repairs are still draining). Unhealthy ones, healthy ones, both, and the node itself.
-				if u == thr || u == thr+1 {
+				if (u == thr || u == thr+1) && (c.Thorough() || n <= 6 || n == 10 || n == 11) {
 					x.PoolObj = true
 					for _, term := range []string{"unhealthy1", "unhealthy-all", "healthy1", "both", "self"} {
 						if !c.Thorough() && (term == "unhealthy-all" || term == "self") && n%2 == 1 {
@@ -508,7 +538,10 @@ func runRepair(c *kit.Ctx) {
 			x.Nodes = poolNodes("pool", 5, 4)
 			x.PoolGetF = f
 			doRepair(c, x)
-			for _, an := range []string{"none", "bad", "past", "now", "future"} {
+			for _, an := range []string{"none", "bad", "past", "now", "future", "past-tz", "future-tz"} {
+				if (an == "past-tz" || an == "future-tz") && f != "err" {
+					continue
+				}
 				for _, d := range []time.Duration{0, time.Nanosecond, time.Second} {
 					x = mk()
 					x.Claims[0].Annot, x.PatchF, x.Delta = an, f, d
@@ -537,6 +570,18 @@ func runRepair(c *kit.Ctx) {
 		x = mk()
 		x.Claims = append(x.Claims, rpClaim{Name: "unrelated", PID: "fake://elsewhere", Pool: "pool", Annot: "none"})
 		doRepair(c, x)
+		// the nodepool label is present with the empty value: still "found", the breaker counts the nodes
+		// labelled with the empty value (and not the unlabelled ones)
+		for _, u := range []int{0, 1, 2} {
+			x = mk()
+			x.Pool, x.Claims[0].Pool = "<empty>", "<empty>"
+			x.Nodes = append(poolNodes("<empty>", 4, u), poolNodes("", 3, 3)...)
+			for k := range x.Nodes {
+				x.Nodes[k].Name = fmt.Sprintf("e%02d", k)
+			}
+			x.PoolObj = false
+			doRepair(c, x)
+		}
 	}
 	// (d) random worlds
 	n := 250
@@ -614,7 +659,7 @@ func runRepair(c *kit.Ctx) {
 			x.Pool = kit.Pick(r, []string{"", "other"})
 		}
 		x.Claims[0].Pool = kit.Pick(r, []string{"pool", "pool", "pool", "", "other"})
-		x.Claims[0].Annot = kit.Pick(r, []string{"none", "none", "bad", "past", "now", "future"})
+		x.Claims[0].Annot = kit.Pick(r, []string{"none", "none", "bad", "past", "now", "future", "past-tz", "future-tz"})
 		x.Claims[0].Deleting = r.Chance(1, 8)
 		switch r.Intn(12) {
 		case 0:
